@@ -93,6 +93,18 @@ static int run_one(const Plan& plan, const Args& a, bool print_plan) {
     double ms = (sim::real_ns() - t0) / 1e6;
     if (a.trace) for (auto& l : s.w.trace) puts(l.c_str());
     if (print_plan) for (auto& st : plan.steps) printf("PLAN %s\n", step_str(st).c_str());
+    if (print_plan) {
+        const char* kn[] = {"run", "publish", "subscribe", "unsubscribe", "receive", "disconnect"};
+        for (auto& o : s.ops) {
+            printf("OP %d %s step=%d q%d gen=%d/%d running=%d init@%llu t=%.6f cancelled=%d", o.id, kn[(int)o.kind], o.step_id, o.qos, o.client_gen, o.svc_gen,
+                   (int)o.client_running, (unsigned long long)o.init_seq, o.init_t / 1e9, (int)o.caller_cancelled);
+            for (auto& d : o.dones) printf(" | done@%llu t=%.6f ec=%s:%d rc=%d %s%s", (unsigned long long)d.seq, d.t / 1e9, d.c.ec.category().name(), d.c.ec.value(), d.c.rc,
+                                          d.c.topic.c_str(), mq::props_str(d.c.props).c_str());
+            printf("\n");
+        }
+        for (auto& m : s.marks) printf("MARK kind=%d seq=%llu t=%.6f op=%d arg=%lld gen=%d\n", (int)m.kind, (unsigned long long)m.seq, m.t / 1e9, m.op, (long long)m.arg, m.svc_gen);
+        for (auto& m : s.broker.msgs) printf("MSG %d q%d %s st=%d sends=%d lost=%d pid=%d\n", m.id, m.qos, m.topic.c_str(), (int)m.st, m.sends, (int)m.session_lost, m.pid);
+    }
     puts(result_line(plan.seed, s, vs, ms).c_str());
     for (auto& v : vs) printf("VIOLATION-DETAIL %s %s: %s\n", v.prop.c_str(), v.oracle.c_str(), v.detail.c_str());
     return vs.empty() ? 0 : 1;
